@@ -14,7 +14,7 @@ RULE = ('cases = role name X (1-6 abstract letters: ASCII letters, digits, punct
         'without the keys (string and non-string scalar values) x credentials with 0-6 roles (duplicates, case variants), '
         'an empty list, or no roles entry x the check alone, under not, or inside a random expression with other role '
         'checks. Non-trivial = the reference allows for some role of the credentials AND X is spelled in a different '
-        'case than the matching role, or denies although a role shares a prefix with X; distinct = distinct (rule, target, creds). Stratum `sequence`: one credentials object whose roles list is mutated in place (append, remove, item assignment, clear) between consecutive calls.')
+        'case than the matching role, or denies although a role shares a prefix with X; distinct = distinct (rule, target, creds). Credentials are passed as a dict, a RequestContext or its policy-values mapping. Stratum `sequence`: one credentials object whose roles list is mutated in place (append, remove, item assignment, clear) between consecutive calls.')
 ASSUMPTIONS = ['letters with context-dependent or one-to-many case mappings are excluded, as the quantifier says',
                'a stray % outside %(key)s is excluded (statement is about %(key)s placeholders)',
                'credentials roles are a list of strings']
@@ -22,7 +22,7 @@ LEVEL_TEXT = ('Seeded sampling of the (role name, form, target, credentials, con
               'independent of any case-folding routine; the space is infinite, so sampling with a structured generator is the level.')
 LEVEL_NOTE = 'trusted: the letter table is verified at start-up to be one-to-one under str.lower/str.upper'
 PLAN = {'quick': dict(shards=4, wall=60), 'thorough': dict(shards=16, wall=400)}
-MIN = {'evaluations': 5000, 'allow_decisions': 500, 'deny_decisions': 500, 'case_variant_matches': 100, 'sequence_decisions': 1000}
+MIN = {'evaluations': 5000, 'allow_decisions': 500, 'deny_decisions': 500, 'case_variant_matches': 100, 'sequence_decisions': 1000, 'non_dict_credentials': 1000}
 ANCHORS = ['oslo_policy._checks:RoleCheck.__call__', 'oslo_policy.policy:Enforcer.enforce']
 REQUIRED_ANCHORS = ['oslo_policy.policy:Enforcer.enforce']
 N = {'quick': 100000, 'thorough': 3000000}
@@ -128,7 +128,7 @@ def gen_case(rnd):
         truth.append(ok)
     rule = expr.spell(expr.to_tokens(ast, lambda i: 'role:' + leaves[i][0]))
     want = expr.ev(ast, truth)
-    return dict(rule=rule, target=target, creds=creds, want=want, leaf_truth=truth)
+    return dict(rule=rule, target=target, creds=creds, want=want, leaf_truth=truth, rep=rnd.choice(['dict', 'dict', 'ctx', 'pv']))
 
 
 def check_case(ctx, real, case):
@@ -136,8 +136,15 @@ def check_case(ctx, real, case):
     ctx.case([case['rule'], case['target'], case['creds']], nontrivial=any(case['leaf_truth']) or bool(case['creds'].get('roles')))
     try:
         enf.set_rules(policy.Rules.from_dict({'p': case['rule']}))
-        got = bool(enf.enforce('p', dict(case['target']), {k: (list(v) if isinstance(v, list) else v)
-                                                            for k, v in case['creds'].items()}))
+        creds = {k: (list(v) if isinstance(v, list) else v) for k, v in case['creds'].items()}
+        rep = case.get('rep', 'dict')
+        if rep != 'dict' and 'roles' in creds:
+            # the same credentials as a RequestContext or as its policy-values mapping
+            from oslo_context import context
+            c = context.RequestContext(roles=list(creds['roles']), user_id=creds.get('user_id'))
+            creds = c if rep == 'ctx' else c.to_policy_values()
+            ctx.count('non_dict_credentials')
+        got = bool(enf.enforce('p', dict(case['target']), creds))
     except Exception as e:
         got = 'EXC:' + type(e).__name__
     ctx.count('allow_decisions' if got is True else 'deny_decisions' if got is False else 'exceptions')
